@@ -338,10 +338,14 @@ thread among them — they run under `updateLock` as a whole) or a generated `re
 per-member layout with an `Overlap`: any lists of assignments to the struct or to members, by other threads, before each
 member is treated, after the loop, between the read of the struct value in `finally` and the update with the merged value,
 before the error is announced; and any values (`seen`) for the cache reads of members without `read_<m>`, which are done
-outside `updateLock` and may see the middle of another thread's update.  At every quiescent point (no operation in
-progress) struct and members agree.  Not modelled: assignments of other threads that fall INSIDE one of the composite member
-operations of the combined layout (`write_<m>` = `write_<struct>`, `read_<struct>`, update of the member: no guard counter
-involved, each step a complete update) — the harness judges those runs, the model places such assignments before them. -/
+outside `updateLock` and may see the middle of another thread's update; or a generated member method of the combined
+layout (`readMemberO`: `read_<struct>()[m]`, then the update of the member; `writeMemberO`: read of the cached struct,
+`write_<struct>`, `read_<m>`, update of the member with the value `read_<m>` RETURNED) with any lists of such assignments before
+each of its steps.  At every quiescent point (no operation in progress) struct and members agree.  Every other access is a single
+update under `updateLock` (programmer-written member methods, plain wrappers, `read_/write_<struct>` of the combined layout):
+whatever other threads do comes before or after it, which `seq` covers.  Granularity: what is done under `updateLock` is
+atomic for everybody who takes that lock; a read of the cached struct value outside it is a single reference read and is taken
+at its position. -/
 theorem struct_members_agree_overlapped (cfg : Cfg) (hnd : cfg.members.Nodup) (s0 : St) (h0 : wf cfg s0.struct = true)
     (h1 : MembersAgree cfg.members s0.struct s0.mem) (ops : List OOp) :
     ∀ s ∈ orun cfg s0 ops, MembersAgree cfg.members s.struct s.mem := by
@@ -368,6 +372,17 @@ theorem overlapped_nothing_is_sequential (cfg : Cfg) (rA : RRes Dict) (rB : Stri
   constructor
   · simp only [ostep, step, readStructO, readStructB, interrupt, List.append_nil, List.foldl_nil, hf, hr']
   · simp only [ostep, step, writeStructO, writeStructB, interrupt, List.append_nil, List.foldl_nil, hf, hw']
+
+/-- the other half of the defect repaired by `fix:` 8a147a3: with one counter for all threads and a thread switch between the
+load and the store of `insideRW += 1`, two threads that each enter and leave once (every thread performs exactly
+`enterLeave`, in order) can leave the counter at −1 — non-zero for good, so that no member update reaches the struct any more;
+run one after the other they leave it at 0 -/
+theorem shared_counter_update_lost :
+    let sched : List (Nat × CAct) := [(0, .load), (1, .load), (0, .storeInc), (1, .storeInc), (0, .load), (0, .storeDec), (1, .load), (1, .storeDec)]
+    (sched.filter (·.1 = 0)).map (·.2) = enterLeave ∧ (sched.filter (·.1 = 1)).map (·.2) = enterLeave ∧
+    (sched.foldl cstep {}).counter = -1 ∧
+    ((enterLeave.map (fun a => (0, a)) ++ enterLeave.map (fun a => (1, a))).foldl cstep {}).counter = 0 := by
+  decide
 
 def cfgO : Cfg := { members := ["p", "i"], hasRS := false, hasWS := false, hasR := fun _ => true, hasW := fun _ => true, omitUnch := true }
 def sO : St := { struct := [("p", 1), ("i", 2)], mem := [("p", 1), ("i", 2)] }
